@@ -4,3 +4,10 @@ NOT_APPLICABLE = {}
 add("C20", "exploration", "property-based testing: exhaustive boundary grid + Hypothesis round-trip / parse oracle",
     "Generated-input search: every presence pattern x boundary value tuple (200 704) enumerated, plus random tuples, pairs for ==/hash, and a malformed-string grammar; oracle = harness formatter/parser written from the syntax. Finds formatting/parsing bugs on any group combination; cannot prove absence outside the grid.",
     "Trusts the harness's own formatter of the reduced/six-part syntax; round trip only asserted where the property states it (optional groups None or non-zero).", "DESIGN.md §4 C20")
+
+add("C03", "exploration", "exhaustive enumeration of the step function (2^24) + Hypothesis differential testing against a bit-serial reference",
+    "All 2^24 (register, octet) steps and all 2^16 residue checks are enumerated through the public API and compared with a bit-serial RFC 1662 reference; byte strings/windows/trailer variants by Hypothesis. The step sub-domain is complete; whole-string behaviour follows by induction and is additionally sampled.",
+    "Trusts vlib/ref_fcs.py (bit-serial, table-free) as the definition; induction assumes update() has no state besides the register.", "DESIGN.md §4 C03")
+add("C01", "exploration", "property-based testing: generated frame/defect/noise streams x splittings x 4 configs against reference validity, field and embedding predicates",
+    "Hypothesis-generated streams of good, defective (bit flip, truncation incl. right after the HCS, wrong length with recomputed checksums, extra octets) and noise tokens, split arbitrarily, for all four reader configurations; every returned frame is judged by an independent bit-serial FCS/length predicate (both directions), exact field octets, and an optimal greedy embedding of the frames into the flag-delimited input. Bounded search, no absence proof.",
+    "No reference reader (C01 does not say which frames are returned); trusts vlib/ref_hdlc.py predicates; accessor comparison only when the frame is long enough to contain the fields.", "DESIGN.md §4 C01")
